@@ -1,123 +1,281 @@
 """C36 — concurrent sessions on one database get distinct identifiers.
 
-Every interleaving of the two database steps of `Session.__init__` (R = count the rows of table
-`session`, the identifier read; I = insert the session row) of 2 sessions (6 schedules) and of
-3 sessions (90 schedules) is enumerated and *replayed against the real code*: every session lives in
-its own freshly started Python process, all of them open one SQLite file, and the harness owns the
-schedule. In the child only, `dataset.Table.count` / `dataset.Table.insert` are wrapped so that a call
-on table `session` announces itself on a pipe and blocks until the parent releases it; the parent
-releases exactly the next step of the schedule and waits for that step to complete.
+Schedule enumeration at the level of SQL statements, implementation-agnostic: every session lives in its
+own Python process, all of them open one SQLite file, and the harness owns the schedule. In the child
+only, a SQLAlchemy `before_cursor_execute` listener on the Engine class (dataset is built on SQLAlchemy)
+turns every statement that mentions table `session` - reflection PRAGMAs, sqlite_master look-ups for it,
+SELECT, INSERT, UPDATE, ALTER TABLE, ... whatever `Session.__init__` happens to issue - into one *step*:
+the child announces the statement on a pipe and blocks until the parent releases it. BEGIN/COMMIT and
+statements on other tables are not gated; they run together with the step that precedes them. How many
+steps a session has is not assumed: it is observed (a child that finishes simply stops consuming steps).
 
-Oracle (the statement): every `Session()` returns, and the identifiers of all sessions on that
-database (the n concurrent ones and the sequential one that created the file) are pairwise distinct
-and each has its own row in table `session` (rows are read back with the stdlib sqlite3 module).
+Schedules (list of segments "child x count", count * = until that child has finished; what is left after
+the last segment is single-stepped in lock-step round-robin):
+  n = 2   every interleaving when the observed step counts make that <= CAP_ALL schedules; otherwise
+          exhaustively every schedule with at most two pre-emptions (X runs k steps, Y runs j steps, X runs
+          to completion, Y finishes; all k, j), every lock-step schedule with a head start of d steps, and a
+          Hypothesis-drawn sample of arbitrary interleavings (seeded from VERIF_SEED); thorough adds all
+          three-pre-emption schedules and a larger sample;
+  n = 3   lock-step with head starts, all one-pre-emption schedules, a Hypothesis-drawn sample (more in
+          thorough, plus sampled nested pre-emptions and a 4-session sample).
+Every schedule is run against two well-formed databases: (current) one created by one sequential session
+of the code under test, (legacy) one in the layout written by the earlier androguard versions, created
+with the stdlib sqlite3 module: WAL journal, `CREATE TABLE session (id INTEGER NOT NULL, PRIMARY KEY (id))`
+and nothing else (the information/pentest/system tables are only created on their first insert), holding
+the rows 0 and 1 that two sessions of those versions wrote.
 
-Soundness: a failure is only ever reported for something the real code did in real processes on a
-real database file. The harness never holds a child at a gate while another child waits inside a
+Oracle (the statement): every `Session()` returns, the identifiers are integers, pairwise distinct and
+distinct from the rows that were in the database before, and each identifier has a row in table `session`
+(rows are read back with the stdlib sqlite3 module).
+
+Soundness: a failure is only ever reported for something the real code did in real processes on a real
+database file; holding a process between two of its statements is something the operating system's
+scheduler may do as well. The harness never holds a child at a gate while another child waits inside a
 database call: when a released step does not complete within T_STEP (SQLite locking can legitimately
 block it) the controller stops scheduling and lets every child run freely; such a run is counted as
 `lock_contention_free_run`, and a "database is locked" error in it is inconclusive, not a violation.
 Parent-side time-outs (child does not start / never finishes) are harness errors (exit 2).
 
-Child mode:  python -m vf.checks.c36 --child   (commands on stdin: 'S <db_url>' create a session, 'go' release a gate, 'Q' quit)
+Session processes are forked from the harness process after androguard has been imported (start-up in milliseconds);
+no database connection is open in the harness process at that moment, everything inherited except the two protocol
+pipes is closed in the child (commands: 'S <db_url>' create a session, 'go' release a gate, 'Q' quit).
 """
 import gc
+import itertools
 import json
 import os
+import re
 import select
 import shutil
 import sqlite3
-import subprocess
 import sys
 import tempfile
 import time
 import traceback
+from math import comb
 
 PROPERTY = 'C36'
 LEVEL = 'exploration'
-RULE = ('all interleavings of the steps R (row count of table session = identifier read) and I (insert of the session '
-        'row) of 2 sessions (6) and 3 sessions (90), each replayed against the real Session.__init__ in separate '
-        'freshly started processes on one SQLite file prepared by one sequential session; thorough adds a seeded sample of '
-        '4-session interleavings. non-trivial = the schedule lets a second session read before a session that has read '
-        'inserts (a reference model of "id = row count" predicts a collision); distinct = the schedule')
-ASSUMPTIONS = ['the schedule is owned at the granularity of dataset.Table.count / dataset.Table.insert on table "session"; '
-               'SQLite-internal locking and concurrent creation of the database file/tables are not explored',
-               'gates are installed harness-side in the child processes only (monkeypatch of dataset.Table), /repo is untouched',
-               'an implementation that does not go through Table.count/Table.insert is still run concurrently and checked, '
-               'but its interleavings are then not controlled (see traces_validated_against_impl)']
+RULE = ('schedules over the SQL statements on table "session" that Session.__init__ issues (one statement = one step, '
+        'gated in each child process by a SQLAlchemy before_cursor_execute listener; the number of steps per session is '
+        'observed, not assumed). 2 sessions: all interleavings if there are at most 400, else all schedules with <= 2 '
+        'pre-emptions (a seeded sample of them when a session has so many steps that they exceed the cap) + all lock-step schedules with a head start + Hypothesis-drawn interleavings; 3 sessions: lock-step '
+        'with head starts + all 1-pre-emption schedules + Hypothesis-drawn interleavings. Each schedule is replayed against '
+        'the real code in separate OS processes (forked per shard, one per session) on one SQLite file, once on a database created by a sequential session of the '
+        'code under test and once on a database in the layout earlier androguard versions wrote. non-trivial = in the '
+        'executed run some session took a step between the first and the last step of another one; distinct = (layout, n, schedule)')
+ASSUMPTIONS = ['androguard reaches the database through SQLAlchemy (dataset does): the schedule is owned at the granularity of SQL '
+               'statements that mention table "session" (statement text or bound parameter); BEGIN/COMMIT and statements on other '
+               'tables run together with the preceding step; SQLite-internal locking inside one statement is not explored',
+               'gates are installed harness-side in the child processes only (event listener on sqlalchemy.engine.Engine), /repo is untouched',
+               'session processes are forked from the harness process (androguard already imported, no database file open at fork '
+               'time, all inherited descriptors closed) and reused for the schedules of one shard; every schedule gets a new database '
+               'file and every Session its own engine/connection',
+               'legacy database layout = what dataset emitted for the pinned code: WAL journal, table session(id INTEGER NOT NULL, '
+               'PRIMARY KEY (id)) only, rows 0 and 1 (identifiers the versions before the session-id fix handed out)',
+               'an implementation that issues no such statement through SQLAlchemy is still run concurrently and checked, but its '
+               'interleavings are then not controlled (see traces_validated_against_impl)']
 
 T_START = 900.0     # child start-up (python + import androguard.session)
+T_FIRST = 60.0      # all children reach their first gate (nothing is held at a gate yet, so waiting long is safe)
 T_STEP = 2.0        # a released step normally completes in milliseconds; beyond this: lock contention, free run
 T_TOTAL = 120.0     # whole schedule
+CAP_ALL = 400       # n = 2: enumerate every interleaving when there are at most this many
+CAP_FAMILY = {'quick': 320, 'thorough': 4000}   # a systematic family with more members (many steps per session) is sampled (seeded), not enumerated
+LAYOUTS = ('current', 'legacy')
+LEGACY_DDL = 'CREATE TABLE session (\n\tid INTEGER NOT NULL, \n\tPRIMARY KEY (id)\n)'
+LEGACY_ROWS = (0, 1)
+
+RAND = {('quick', 2): 110, ('quick', 3): 70, ('thorough', 2): 2000, ('thorough', 3): 1200, ('thorough', 4): 600}
 
 
 def EXHAUSTIVE(tier):
-    return True
+    return False        # the space of all interleavings is only covered completely when it is small (see exhaustive_component)
 
 
 def EXTRA_COVERAGE(m):
     ex = m['extra']
+    sampled = lambda k: k.startswith('family:rand') or '-sample:' in k
+    fams = sorted(k[len('family:'):] + '=%d' % v for k, v in ex.items() if k.startswith('family:') and not sampled(k))
+    rnd = sorted(k[len('family:'):] + '=%d' % v for k, v in ex.items() if k.startswith('family:') and sampled(k))
     return {'schedules_replayed': ex.get('schedules', 0),
-            'traces_validated_against_impl': ex.get('trace_matches_model_steps', 0),
-            'exhaustive_component': 'interleavings of (R, I) for 2 and 3 sessions: 6 + 90 schedules, all replayed'}
+            'traces_validated_against_impl': ex.get('ran_as_scheduled', 0),
+            'exhaustive_component': 'complete families, every member replayed (family:layout:n:observed steps per session = schedules): '
+                                    + ('; '.join(fams) or 'none') + '. Sampled (Hypothesis-drawn / seeded sample of a family that is too large): ' + ('; '.join(rnd) or 'none')}
 
 
-# -- schedules and the reference model ----------------------------------------------------------
+# -- schedules -----------------------------------------------------------------------------------
+# A schedule is a tuple of segments (child, count); count 0 = until that child has finished. A finite segment whose
+# child finishes early is cut short. After the last segment the remaining steps are taken in lock-step round-robin.
 
-def schedules(n):
-    """All interleavings of R_i < I_i for i < n, as tuples of (session, step), in a fixed order."""
+def norm(segs, cap=None):
+    """Merge adjacent segments of one child, drop empty ones, optionally cap the finite steps of each child."""
     out = []
-
-    def rec(prefix, state):
-        if all(s == 2 for s in state):
-            out.append(tuple(prefix))
-            return
-        for i in range(n):
-            if state[i] < 2:
-                st = list(state)
-                st[i] += 1
-                rec(prefix + [(i, 'RI'[state[i]])], st)
-    rec([], [0] * n)
-    return out
+    used = {}
+    closed = set()
+    for i, k in segs:
+        i, k = int(i), int(k)
+        if i in closed or k < 0:
+            continue
+        if k == 0:
+            closed.add(i)
+        elif cap is not None:
+            k = min(k, cap - used.get(i, 0))
+            if k <= 0:
+                continue
+            used[i] = used.get(i, 0) + k
+        if out and out[-1][0] == i and out[-1][1] != 0:
+            out[-1] = (i, 0 if k == 0 else out[-1][1] + k)
+        else:
+            out.append((i, k))
+    return tuple(out)
 
 
 def sched_str(s):
-    return ' '.join('%s%d' % (step, i) for i, step in s)
+    return ' '.join('%dx%s' % (i, k or '*') for i, k in s) or 'lock-step'
 
 
-def model(s, existing=1):
-    """Reference model of 'identifier = number of rows, then insert that identifier':
-    returns (racy, ids) where ids[i] is the id session i gets or None when its insert collides."""
-    rows = set(range(existing))
-    read = {}
-    ids = {}
-    for i, step in s:
-        if step == 'R':
-            read[i] = len(rows)
-        else:
-            if read[i] in rows:
-                ids[i] = None
-            else:
-                rows.add(read[i])
-                ids[i] = read[i]
-    racy = False
-    pending = set()
-    for i, step in s:
-        if step == 'R':
-            if pending:
-                racy = True
-            pending.add(i)
-        else:
-            pending.discard(i)
-    return racy, ids
+def fam_all(s0, s1):
+    out = []
+    for pos in itertools.combinations(range(s0 + s1), s0):
+        pos = set(pos)
+        out.append(norm([(0 if t in pos else 1, 1) for t in range(s0 + s1)]))
+    return out
+
+
+def fam_lockstep(n, smax):
+    """Round-robin (every order of the children), and round-robin after a head start of d steps for one child."""
+    out = []
+    for perm in itertools.permutations(range(n)):
+        out.append(norm([(i, 1) for _ in range(smax) for i in perm]))
+    for x in range(n):
+        for d in range(1, smax):
+            out.append(norm([(x, d)]))
+    return _dedupe(out)
+
+
+def fam_preempt1(n, smax):
+    """X runs k steps, is pre-empted, the others run to completion one after the other, X finishes."""
+    out = []
+    for perm in itertools.permutations(range(n)):
+        x, rest = perm[0], perm[1:]
+        for k in range(0, smax + 1):
+            out.append(norm([(x, k)] + [(y, 0) for y in rest] + [(x, 0)]))
+    return _dedupe(out)
+
+
+def fam_preempt2(smax):
+    """n = 2: X runs k, Y runs j, X runs to completion, Y finishes."""
+    out = []
+    for x in (0, 1):
+        y = 1 - x
+        for k in range(1, smax):
+            for j in range(1, smax):
+                out.append(norm([(x, k), (y, j), (x, 0), (y, 0)]))
+    return _dedupe(out)
+
+
+def fam_preempt3(smax):
+    """n = 2: X runs k, Y runs j, X runs m more, Y runs to completion, X finishes."""
+    out = []
+    for x in (0, 1):
+        y = 1 - x
+        for k in range(1, smax):
+            for j in range(1, smax):
+                for m in range(1, smax - k):
+                    out.append(norm([(x, k), (y, j), (x, m), (y, 0), (x, 0)]))
+    return _dedupe(out)
+
+
+def fam_nested(n, smax):
+    """n >= 3: X runs k, Y runs j, the others run to completion, Y finishes, X finishes."""
+    out = []
+    for perm in itertools.permutations(range(n)):
+        x, y, rest = perm[0], perm[1], perm[2:]
+        for k in range(1, smax):
+            for j in range(1, smax):
+                out.append(norm([(x, k), (y, j)] + [(z, 0) for z in rest] + [(y, 0), (x, 0)]))
+    return _dedupe(out)
+
+
+def _dedupe(l):
+    seen = set()
+    out = []
+    for s in l:
+        if s not in seen:
+            seen.add(s)
+            out.append(s)
+    return out
+
+
+def family(name, n, steps, seed):
+    """The schedules of a systematic family, given the step counts observed in the serial probe run."""
+    smax = max(max(steps), 1)
+    if name == 'all':           # n == 2 and small
+        return fam_all(steps[0], steps[1])
+    if name == 'lockstep':
+        return fam_lockstep(n, smax)
+    if name == 'preempt1':
+        return fam_preempt1(n, smax)
+    if name == 'preempt2':
+        return fam_preempt2(smax)
+    if name == 'preempt3':
+        return fam_preempt3(smax)
+    if name == 'nested-sample':
+        import random
+        pool = fam_nested(n, smax)
+        return random.Random(seed * 7919 + 36 + n).sample(pool, min(len(pool), 600))
+    raise ValueError(name)
+
+
+def rand_strategy(n, smax):
+    from hypothesis import strategies as st
+    unit = st.lists(st.integers(0, n - 1), max_size=n * smax).map(lambda l: [(i, 1) for i in l])
+    seg = st.lists(st.tuples(st.integers(0, n - 1), st.integers(1, max(smax, 1))), max_size=3 * n + 3)
+    tail = st.one_of(st.just([]), st.permutations(list(range(n))).map(lambda p: [(i, 0) for i in p]))
+    return st.tuples(st.one_of(unit, seg), tail).map(lambda t: norm(list(t[0]) + list(t[1]), cap=smax))
 
 
 # -- child ---------------------------------------------------------------------------------------
 
-def child_main():
-    proto_out = os.fdopen(os.dup(1), 'w')
-    os.dup2(2, 1)               # nothing else may write on the protocol channel
-    proto_in = sys.stdin
+_SESSION_WORD = re.compile(r'\bsession\b', re.IGNORECASE)
+
+
+def _mentions_session(statement, parameters):
+    if isinstance(statement, str) and _SESSION_WORD.search(statement):
+        return True
+
+    def walk(p, depth=0):
+        if isinstance(p, str):
+            return p.lower() == 'session'
+        if depth < 3 and isinstance(p, dict):
+            return any(walk(v, depth + 1) for v in p.values())
+        if depth < 3 and isinstance(p, (list, tuple)):
+            return any(walk(v, depth + 1) for v in p)
+        return False
+    return walk(parameters)
+
+
+def _token(statement):
+    """Short class of a statement for the trace: first keyword (+ pragma name / object kind)."""
+    w = re.findall(r'[A-Za-z_]+', statement or '')[:4]
+    if not w:
+        return '?'
+    head = w[0].upper()
+    if head == 'PRAGMA':
+        names = [x for x in w[1:] if x.lower() not in ('main', 'temp')]
+        return 'PRAGMA ' + (names[0].lower() if names else '')
+    if head == 'SELECT' and 'sqlite_master' in statement:
+        return 'SELECT sqlite_master'
+    if head in ('ALTER', 'CREATE', 'DROP') and len(w) > 1:
+        return head + ' ' + w[1].upper()
+    return head
+
+
+def child_main(cmd_fd, ev_fd):
+    """Body of a session process (runs in the forked child only, never returns)."""
+    proto_in = os.fdopen(cmd_fd, 'r')
+    proto_out = os.fdopen(ev_fd, 'w')
 
     def send(obj):
         proto_out.write(json.dumps(obj) + '\n')
@@ -133,23 +291,21 @@ def child_main():
         logger.remove()
     except Exception:
         pass
-    import dataset.table as T
-    orig_count, orig_insert = T.Table.count, T.Table.insert
+    from sqlalchemy import event
+    from sqlalchemy.engine import Engine
+    engines = {}
+    gating = [False]
 
-    def count(self, *a, **k):
-        if self.name == 'session':
-            send({'ev': 'gate', 'step': 'R'})
+    def gate(conn, cursor, statement, parameters, context, executemany):
+        try:
+            engines[id(conn.engine)] = conn.engine
+        except Exception:
+            pass
+        if gating[0] and _mentions_session(statement, parameters):
+            send({'ev': 'gate', 'sql': _token(statement)})
             wait_go()
-        return orig_count(self, *a, **k)
 
-    def insert(self, row, *a, **k):
-        if self.name == 'session':
-            send({'ev': 'gate', 'step': 'I'})
-            wait_go()
-        return orig_insert(self, row, *a, **k)
-
-    T.Table.count = count
-    T.Table.insert = insert
+    event.listen(Engine, 'before_cursor_execute', gate)
     from androguard.session import Session
     import androguard
     send({'ev': 'ready', 'androguard': os.path.dirname(os.path.abspath(androguard.__file__))})
@@ -160,11 +316,14 @@ def child_main():
         assert line.startswith('S '), line
         url = line[2:].rstrip('\n')
         s = None
+        gating[0] = True
         try:
             s = Session(db_url=url)
             sid = s.session_id
+            gating[0] = False
             send({'ev': 'done', 'id': sid if isinstance(sid, int) and not isinstance(sid, bool) else None, 'repr': repr(sid)})
         except Exception as e:
+            gating[0] = False
             send({'ev': 'exc', 'type': type(e).__name__, 'msg': str(e)[:300], 'text': traceback.format_exc()[-1500:]})
         # harness-side clean-up so that a reused child holds no connection to the finished schedule's file
         try:
@@ -172,31 +331,91 @@ def child_main():
                 s.db.close()
         except Exception:
             pass
+        failed = s is None
         del s
-        gc.collect()
-    proto_out.close()
+        if failed:
+            gc.collect()        # the half-built Session still owns a connection: drop it before disposing the engine
+        for e in list(engines.values()):
+            try:
+                e.dispose()
+            except Exception:
+                pass
+        engines.clear()
     os._exit(0)
 
 
 # -- parent-side controller ----------------------------------------------------------------------
 
+def _open_database_files():
+    """Database files this process has open (there must be none when a session process is forked: an SQLite
+    connection must not be carried across fork)."""
+    out = []
+    try:
+        fds = os.listdir('/proc/self/fd')
+    except OSError:
+        return out
+    for fd in fds:
+        try:
+            target = os.readlink('/proc/self/fd/' + fd)
+        except OSError:
+            continue
+        if target.endswith(('.db', '.db-wal', '.db-shm', '.db-journal')):
+            out.append(target)
+    return out
+
+
 class _Child:
+    """One session process: forked from the harness process (androguard is imported already, so start-up costs
+    milliseconds instead of seconds), talking to it over two pipes. Everything else it inherited is closed."""
+
     def __init__(self):
-        self.p = subprocess.Popen([sys.executable, '-m', 'vf.checks.c36', '--child'],
-                                  stdin=subprocess.PIPE, stdout=subprocess.PIPE, stderr=subprocess.DEVNULL,
-                                  bufsize=0, close_fds=True)
+        from vf.core.runner import HarnessError
+        import androguard.session       # imported before the fork: the child inherits it  # noqa: F401
+        left = _open_database_files()
+        if left:
+            raise HarnessError('database files open in the harness process at fork time: %r' % (left,))
+        cmd_r, cmd_w = os.pipe()
+        ev_r, ev_w = os.pipe()
+        sys.stdout.flush()
+        sys.stderr.flush()
+        pid = os.fork()
+        if pid == 0:
+            code = 70
+            try:
+                null = os.open(os.devnull, os.O_RDWR)
+                for fd in (0, 1, 2):
+                    os.dup2(null, fd)
+                keep = {0, 1, 2, cmd_r, ev_w}
+                for name in os.listdir('/proc/self/fd'):
+                    fd = int(name)
+                    if fd not in keep:
+                        try:
+                            os.close(fd)
+                        except OSError:
+                            pass
+                child_main(cmd_r, ev_w)
+                code = 0
+            finally:
+                os._exit(code)
+        os.close(cmd_r)
+        os.close(ev_w)
+        self.pid = pid
+        self.wfd = cmd_w
+        self.rfd = ev_r
         self.buf = b''
-        self.state = 'starting'    # starting | idle | running | gate:R | gate:I | done | exc | dead
+        self.state = 'starting'    # starting | idle | running | gate | done | exc | dead
+        self.sql = None            # statement class the child waits at (state == 'gate')
         self.result = None
-        self.trace = []            # gates actually passed in the current schedule
+        self.trace = []            # statement classes of the gates passed in the current schedule
         self.where = None
+        self.reaped = False
 
     def fileno(self):
-        return self.p.stdout.fileno()
+        return self.rfd
 
     def _write(self, line):
         try:
-            self.p.stdin.write(line)
+            os.write(self.wfd, line)
         except (BrokenPipeError, OSError):
             self.state = 'dead'
             return
@@ -209,10 +428,11 @@ class _Child:
         self._write(('S %s\n' % url).encode())
 
     def go(self):
+        self.trace.append(self.sql)
         self._write(b'go\n')
 
     def feed(self):
-        data = os.read(self.fileno(), 65536)
+        data = os.read(self.rfd, 65536)
         if not data:
             self.state = 'dead'
             return
@@ -224,28 +444,46 @@ class _Child:
                 self.state = 'idle'
                 self.where = ev['androguard']
             elif ev['ev'] == 'gate':
-                self.state = 'gate:' + ev['step']
+                self.state = 'gate'
+                self.sql = ev.get('sql', '?')
             elif ev['ev'] in ('done', 'exc'):
                 self.state = ev['ev']
                 self.result = ev
 
-    def close(self):
-        try:
-            if self.p.poll() is None and self.state in ('idle', 'done', 'exc'):
-                self.p.stdin.write(b'Q\n')
-                self.p.wait(timeout=5)
-        except (OSError, subprocess.TimeoutExpired):
-            pass
-        try:
-            self.p.kill()
-        except OSError:
-            pass
-        for f in (self.p.stdin, self.p.stdout):
+    def _reap(self, timeout):
+        deadline = time.monotonic() + timeout
+        while not self.reaped:
             try:
-                f.close()
+                pid, _ = os.waitpid(self.pid, os.WNOHANG)
+            except ChildProcessError:
+                pid = self.pid
+            if pid == self.pid:
+                self.reaped = True
+            elif time.monotonic() >= deadline:
+                return False
+            else:
+                time.sleep(0.005)
+        return True
+
+    def close(self):
+        if self.reaped:
+            return
+        if self.state in ('idle', 'done', 'exc'):
+            try:
+                os.write(self.wfd, b'Q\n')
             except OSError:
                 pass
-        self.p.wait()
+        for fd in (self.wfd, self.rfd):      # closing the command pipe ends a child that still waits for a command
+            try:
+                os.close(fd)
+            except OSError:
+                pass
+        if not self._reap(3.0):
+            try:
+                os.kill(self.pid, 9)
+            except OSError:
+                pass
+            self._reap(30.0)
 
 
 def _pump(children, until, timeout):
@@ -281,173 +519,274 @@ def spawn(n):
     return children
 
 
-def run_schedule(workdir, n, sched, children):
-    """Replay one schedule on idle children. Returns dict(results, rows, init_id, followed, contention, traces)."""
+def _workdir():
+    """Scratch directory for the database files: memory-backed when the machine has one (a commit then costs no disk
+    flush; file locking and the WAL shared-memory file work the same there), the default temporary directory otherwise."""
+    shm = '/dev/shm'
+    if os.path.isdir(shm) and os.access(shm, os.W_OK | os.X_OK):
+        return tempfile.mkdtemp(prefix='vf-c36-', dir=shm)
+    return tempfile.mkdtemp(prefix='vf-c36-')
+
+
+def _session_rows(path):
+    con = sqlite3.connect(path, timeout=30)
+    try:
+        return [r[0] for r in con.execute('SELECT id FROM session')]
+    finally:
+        con.close()
+
+
+def make_database(path, layout):
+    """Create the well-formed database the concurrent sessions will open. Returns the ids of its session rows."""
+    from vf.core.runner import HarnessError
+    if layout == 'current':
+        # the database file and its tables are created beforehand by one sequential session of the code under test
+        from androguard.session import Session
+        s0 = Session(db_url='sqlite:///' + path)
+        s0.db.close()
+        del s0
+    elif layout == 'legacy':
+        # what the earlier versions wrote (statements dataset emitted for them), with the stdlib module only
+        con = sqlite3.connect(path)
+        try:
+            mode = con.execute('PRAGMA journal_mode=WAL').fetchone()[0]
+            if mode != 'wal':
+                raise HarnessError('cannot create a WAL-mode database at %s (journal mode %r)' % (path, mode))
+            con.execute(LEGACY_DDL)
+            for i in LEGACY_ROWS:
+                con.execute('INSERT INTO session (id) VALUES (?)', (i,))
+            con.commit()
+        finally:
+            con.close()
+    else:
+        raise HarnessError('unknown database layout %r' % (layout,))
+    return _session_rows(path)
+
+
+def run_schedule(workdir, layout, n, sched, children):
+    """Replay one schedule on idle children.
+    Returns dict(results, rows, pre, followed, contention, traces, order)."""
     from vf.core.runner import HarnessError
     assert len(children) == n and all(c.state in ('idle', 'done', 'exc') for c in children)
     d = tempfile.mkdtemp(prefix='db', dir=workdir)
     path = os.path.join(d, 's.db')
     url = 'sqlite:///' + path
     try:
-        # the database file and its tables are created beforehand by one sequential session
-        from androguard.session import Session
-        s0 = Session(db_url=url)
-        init_id = s0.session_id
-        s0.db.close()
-        del s0
+        pre = make_database(path, layout)
         t_begin = time.monotonic()
         for c in children:
             c.start_session(url)         # enter Session.__init__; each runs up to its first gate
-        followed = True                  # every scheduled step was found at its gate and completed in order
-        contention = False
-        for (i, step) in sched:
+        order = []                       # child index of every step, in the order the steps were released
+        state = {'followed': True, 'contention': False}
+        if not _pump(children, lambda: all(c.state != 'running' for c in children), T_FIRST):
+            state['contention'] = True
+
+        def step(i):
+            """Release one step of child i and wait for it to complete. False: child has no step left / contention."""
             c = children[i]
             _pump(children, lambda: c.state != 'running', T_STEP)
-            if c.state == 'running':     # blocked inside a database call
-                contention = True
+            if c.state == 'running':     # blocked inside a database call before reaching a gate
+                state['contention'] = True
+                return False
+            if c.state != 'gate':        # finished
+                return False
+            order.append(i)
+            c.go()
+            _pump(children, lambda: c.state != 'running', T_STEP)
+            if c.state == 'running':     # the released statement waits for a lock
+                state['contention'] = True
+                return False
+            return True
+
+        for (i, k) in sched:
+            if state['contention']:
                 break
-            if c.state == 'gate:' + step:
-                c.trace.append(step)
-                c.go()
-                _pump(children, lambda: c.state != 'running', T_STEP)
-                if c.state == 'running':
-                    contention = True
+            if not 0 <= i < n:
+                raise HarnessError('schedule %s names child %d of %d' % (sched_str(sched), i, n))
+            taken = 0
+            while k == 0 or taken < k:
+                if not step(i):
+                    if k != 0 and not state['contention']:
+                        state['followed'] = False       # the implementation has no such step (finished earlier)
                     break
-            else:
-                followed = False         # the implementation has no such step here (other gate, or finished)
-        # drain: steps beyond the modelled R, I (a retry after a conflict, ...) are single-stepped in lock-step
-        # round-robin order - every waiting process moves one step before any moves a second one - which is
-        # deterministic and keeps the windows of the retries overlapping. After lock contention: free run.
+                taken += 1
+        # drain: what is left is single-stepped in lock-step round-robin order - every waiting process moves one
+        # step before any moves a second one - which is deterministic. After lock contention: free run.
         finished = lambda: all(c.state in ('done', 'exc') for c in children)
         while not finished():
             left = T_TOTAL - (time.monotonic() - t_begin)
             if left <= 0:
                 raise HarnessError('C36 schedule %s did not finish within %.0f s (states %r)' % (
                     sched_str(sched), T_TOTAL, [c.state for c in children]))
-            waiting = [c for c in children if c.state.startswith('gate:')]
-            if contention:
-                for c in waiting:
-                    c.trace.append(c.state[5:])
-                    c.go()
-                _pump(children, lambda: finished() or any(c.state.startswith('gate:') for c in children), min(left, 1.0))
-            elif not waiting:
-                _pump(children, lambda: finished() or any(c.state.startswith('gate:') for c in children), min(left, 1.0))
+            if state['contention']:
+                for i, c in enumerate(children):
+                    if c.state == 'gate':
+                        order.append(i)
+                        c.go()
+                _pump(children, lambda: finished() or any(c.state == 'gate' for c in children), min(left, 1.0))
             else:
-                followed = False          # the implementation takes steps the model does not have
-                for c in waiting:
-                    c.trace.append(c.state[5:])
-                    c.go()
-                    _pump(children, lambda: c.state != 'running', T_STEP)
-                    if c.state == 'running':
-                        contention = True
-                        break
+                for i in range(n):
+                    if children[i].state not in ('done', 'exc'):
+                        step(i)
+                        if state['contention']:
+                            break
         results = [c.result for c in children]
-        traces = [''.join(c.trace) for c in children]
-        con = sqlite3.connect(path, timeout=30)
-        try:
-            rows = [r[0] for r in con.execute('SELECT id FROM session')]
-        finally:
-            con.close()
-        return dict(results=results, rows=rows, init_id=init_id, followed=followed and not contention,
-                    contention=contention, traces=traces)
+        traces = [list(c.trace) for c in children]
+        rows = _session_rows(path)
+        controlled = not state['contention'] and all(traces)
+        return dict(results=results, rows=rows, pre=pre, followed=state['followed'] and controlled,
+                    contention=state['contention'], traces=traces, order=order)
     finally:
         shutil.rmtree(d, ignore_errors=True)
 
 
-def evaluate(ctx, workdir, n, sched, children=None, mode='fresh'):
-    sched = tuple((int(i), str(s)) for i, s in sched)
-    racy, predicted = model(sched)
+def _interleaved(order, n):
+    first, last = {}, {}
+    for t, i in enumerate(order):
+        first.setdefault(i, t)
+        last[i] = t
+    return any(first[i] < t < last[i] and j != i for t, j in enumerate(order) for i in first)
+
+
+def _compress(trace):
+    out = []
+    for t in trace:
+        if out and out[-1][0] == t:
+            out[-1][1] += 1
+        else:
+            out.append([t, 1])
+    return ' '.join(t if k == 1 else '%s*%d' % (t, k) for t, k in out)
+
+
+def evaluate(ctx, workdir, layout, n, sched, children=None, mode='fresh', fam='replay'):
+    sched = norm(sched)
     own = children is None
     if own:
         children = spawn(n)
         ctx.count('processes_started', n)
     try:
-        out = run_schedule(workdir, n, sched, children)
+        out = run_schedule(workdir, layout, n, sched, children)
     finally:
         if own:
             for c in children:
                 c.close()
     res = out['results']
     ids = [r.get('id') if r['ev'] == 'done' else None for r in res]
-    shape = 'racy' if racy else 'serial'
-    matches = out['followed'] and all(t == 'RI' for t in out['traces'])
-    ctx.case(nontrivial=racy, key=(n, sched_str(sched)),
-             labels=['n%d' % n, 'n%d:%s' % (n, shape), 'processes:' + mode,
-                     'replayed-as-scheduled' if out['followed'] else 'not-as-scheduled'],
-             sample={'n': n, 'schedule': sched_str(sched), 'ids': ids, 'rows': sorted(out['rows'], key=repr)})
+    inter = _interleaved(out['order'], n)
+    ctx.case(nontrivial=inter, key=(layout, n, sched_str(sched)),
+             labels=['n%d' % n, 'layout:' + layout, 'n%d:%s' % (n, 'interleaved' if inter else 'serial'), 'processes:' + mode,
+                     'family:' + fam, 'replayed-as-scheduled' if out['followed'] else 'not-as-scheduled',
+                     'steps-per-session:%s' % ','.join(str(len(t)) for t in out['traces'])],
+             sample={'n': n, 'layout': layout, 'schedule': sched_str(sched), 'order': ''.join(map(str, out['order'])),
+                     'ids': ids, 'rows': sorted(out['rows'], key=repr)})
     ctx.count('schedules')
-    if matches:
-        ctx.count('trace_matches_model_steps')
-        # informative only: does the observed outcome equal what the count-then-insert model predicts?
-        if [predicted[i] for i in range(n)] == [x if x is None else x - out['init_id'] for x in ids]:
-            ctx.count('outcome_equals_count_then_insert_model')
+    ctx.count('steps_released', len(out['order']))
+    if out['followed']:
+        ctx.count('ran_as_scheduled')
     if out['contention']:
         ctx.count('lock_contention_free_run')
     observed = {'results': [dict(ev=r['ev'], id=r.get('id'), repr=r.get('repr'), type=r.get('type')) for r in res],
-                'rows': out['rows'], 'init_id': out['init_id'], 'traces': out['traces'],
+                'rows': out['rows'], 'rows_before': out['pre'], 'order': ''.join(map(str, out['order'])),
+                'statements': [_compress(t) for t in out['traces']],
                 'followed': out['followed'], 'contention': out['contention']}
-    case = {'n': n, 'schedule': [[i, s] for i, s in sched], 'schedule_str': sched_str(sched), 'observed': observed,
-            'model_predicts_for_count_then_insert': {'racy': racy, 'ids': [predicted[i] for i in range(n)]}}
+    case = {'n': n, 'layout': layout, 'schedule': [[i, k] for i, k in sched], 'schedule_str': sched_str(sched), 'observed': observed}
+    where = 'database %s, schedule %s (steps released in order %s)' % (layout, sched_str(sched), observed['order'])
     for i, r in enumerate(res):
         if r['ev'] == 'exc':
             if out['contention'] and 'database is locked' in r.get('text', ''):
                 ctx.count('inconclusive_locked_under_harness_hold')
                 continue
-            ctx.fail('returns:exception:%s:n%d:%s' % (r['type'], n, shape), case,
-                     'schedule %s: Session() of process %d raised %s: %s\n%s' % (
-                         sched_str(sched), i, r['type'], r.get('msg', ''), r.get('text', '')))
+            ctx.fail('returns:exception:%s:n%d:%s' % (r['type'], n, layout), case,
+                     '%s: Session() of process %d raised %s: %s\n%s' % (where, i, r['type'], r.get('msg', ''), r.get('text', '')))
         elif r.get('id') is None:
-            ctx.fail('id:not-an-int:n%d' % n, case, 'schedule %s: session_id of process %d is %s' % (sched_str(sched), i, r.get('repr')))
+            ctx.fail('id:not-an-int:n%d:%s' % (n, layout), case, '%s: session_id of process %d is %s' % (where, i, r.get('repr')))
     got = [x for x in ids if x is not None]
-    allids = got + [out['init_id']]
-    ctx.check(len(set(allids)) == len(allids), 'distinct:session_id:n%d:%s' % (n, shape), case,
-              'schedule %s: session ids %r (sequential first session: %r) are not pairwise distinct' % (
-                  sched_str(sched), ids, out['init_id']))
-    if all(r['ev'] == 'done' for r in res):
-        rows = out['rows']
-        ctx.check(len(rows) == len(set(rows)) == n + 1 and set(rows) == set(allids),
-                  'rows:n%d:%s' % (n, shape), case,
-                  'schedule %s: table session holds ids %r, sessions have %r' % (sched_str(sched), rows, allids))
+    allids = got + list(out['pre'])
+    ctx.check(len(set(allids)) == len(allids), 'distinct:session_id:n%d:%s' % (n, layout), case,
+              '%s: session ids %r are not pairwise distinct and distinct from the rows %r that were in the database before' % (
+                  where, ids, out['pre']))
+    rows = out['rows']
+    ctx.check(set(got) <= set(rows), 'rows:n%d:%s' % (n, layout), case,
+              '%s: table session holds ids %r, sessions have %r' % (where, rows, got))
+    if len(rows) != len(allids):
+        ctx.count('runs_with_row_count_other_than_sessions')
+    return out
 
 
 # -- check interface -----------------------------------------------------------------------------
 
-N4_SAMPLE = 600
-
-
-def _pool_of(n, tier, seed):
-    if n < 4:
-        return schedules(n)
-    import random
-    return random.Random(seed * 7919 + 36).sample(schedules(4), N4_SAMPLE)
-
-
 def shards(tier, seed):
-    """(mode, n, j, k): the schedules _pool_of(n)[j::k].
-    mode 'fresh': a new set of n processes for every schedule (all 2-session schedules and, in thorough, all
-    3-session schedules). mode 'reuse': n processes started once per shard; each schedule still runs its n sessions
-    in n different processes on a new database file."""
-    sh = [('fresh', 2, j, 3) for j in range(3)]
-    if tier == 'quick':
-        sh += [('reuse', 3, j, 6) for j in range(6)]
-    else:
-        sh += [('fresh', 3, j, 15) for j in range(15)]
-        sh += [('reuse', 3, j, 3) for j in range(3)]
-        sh += [('reuse', 4, j, 10) for j in range(10)]
+    """(layout, n, family, j, k): processes are started once per shard; each schedule runs its n sessions in n different
+    processes on a new database file. family 'sys' = the systematic families [j::k], 'rand' = Hypothesis-drawn schedules,
+    'fresh' = a few schedules with a new set of processes for every schedule."""
+    sh = []
+    for lay in LAYOUTS:
+        if tier == 'quick':
+            sh += [(lay, 2, 'sys', j, 4) for j in range(4)]
+            sh += [(lay, 2, 'rand', 0, 1)]
+            sh += [(lay, 3, 'sys', j, 2) for j in range(2)]
+            sh += [(lay, 3, 'rand', 0, 1)]
+            sh += [(lay, 2, 'fresh', 0, 1)]
+        else:
+            sh += [(lay, 2, 'sys', j, 12) for j in range(12)]
+            sh += [(lay, 2, 'rand', j, 4) for j in range(4)]
+            sh += [(lay, 3, 'sys', j, 6) for j in range(6)]
+            sh += [(lay, 3, 'rand', j, 4) for j in range(4)]
+            sh += [(lay, 4, 'rand', j, 2) for j in range(2)]
+            sh += [(lay, 2, 'fresh', 0, 1), (lay, 3, 'fresh', 0, 1)]
     return sh
 
 
+def _systematic(tier, n, steps, seed):
+    """[(family name, schedules)] for the observed step counts."""
+    if n == 2:
+        if comb(steps[0] + steps[1], steps[0]) <= CAP_ALL:
+            return [('all', family('all', n, steps, seed))]
+        names = ['lockstep', 'preempt1', 'preempt2'] + (['preempt3'] if tier != 'quick' else [])
+    else:
+        names = ['lockstep', 'preempt1'] + (['nested-sample'] if tier != 'quick' else [])
+    seen = set()
+    out = []
+    for name in names:
+        l = [s for s in family(name, n, steps, seed) if s not in seen]
+        seen.update(l)
+        if len(l) > CAP_FAMILY[tier]:
+            import random
+            l = random.Random(seed * 7919 + 36 + len(out)).sample(l, CAP_FAMILY[tier])
+            name += '-sample'
+        out.append((name, l))
+    return out
+
+
 def run_shard(ctx, shard):
-    mode, n, j, k = shard
-    scheds = _pool_of(n, ctx.tier, ctx.seed)[j::k]
-    work = tempfile.mkdtemp(prefix='vf-c36-')
+    from vf.core.runner import hyp_collect
+    lay, n, fam, j, k = shard
+    work = _workdir()
     children = None
     try:
-        if mode == 'reuse':
-            children = spawn(n)
-            ctx.count('processes_started', n)
-        for sched in scheds:
-            evaluate(ctx, work, n, sched, children, mode)
+        if fam == 'fresh':
+            for sched in [(), norm([(0, 0)] + [(i, 0) for i in range(1, n)])]:
+                evaluate(ctx, work, lay, n, sched, None, 'fresh', 'fresh')
+            return
+        children = spawn(n)
+        ctx.count('processes_started', n)
+        # probe: one serial run tells how many steps a session of this implementation has on this database
+        serial = norm([(i, 0) for i in range(n)])
+        out = evaluate(ctx, work, lay, n, serial, children, 'reuse', 'probe')
+        steps = [len(t) for t in out['traces']]
+        tag = '%s:n%d:steps%s' % (lay, n, ','.join(map(str, steps)))
+        if fam == 'sys':
+            for name, pool in _systematic(ctx.tier, n, steps, ctx.seed):
+                for sched in pool[j::k]:
+                    evaluate(ctx, work, lay, n, sched, children, 'reuse', name)
+                    ctx.count('family:%s:%s' % (name, tag))
+        else:
+            smax = max(max(steps), 1)
+
+            def one(c, sched):
+                evaluate(c, work, lay, n, sched, children, 'reuse', 'rand')
+                c.count('family:rand:%s' % tag)
+            hyp_collect(ctx, rand_strategy(n, smax), one, max(1, RAND[(ctx.tier, n)] // k), salt=36 + n)
     finally:
         for c in children or ():
             c.close()
@@ -455,18 +794,11 @@ def run_shard(ctx, shard):
 
 
 def replay(ctx, case):
-    work = tempfile.mkdtemp(prefix='vf-c36-')
+    work = _workdir()
     try:
-        evaluate(ctx, work, int(case['n']), case['schedule'])
+        evaluate(ctx, work, str(case.get('layout', 'current')), int(case['n']), [(int(i), int(k)) for i, k in case['schedule']])
     finally:
         shutil.rmtree(work, ignore_errors=True)
 
 
 MATCHERS = {}
-
-
-if __name__ == '__main__':
-    if len(sys.argv) == 2 and sys.argv[1] == '--child':
-        child_main()
-    else:
-        sys.exit('usage: python -m vf.checks.c36 --child')
